@@ -36,7 +36,7 @@ Definition render (n : node) : R := rx_node 10 0 [n] n (SData (VMap [])) true []
 Lemma rx_remove_only : forall mode, let n := elem (doc mode) in
   n_tok n = Some (tok_of n) -> t_kind (tok_of n) = KTag -> a_name (dir_of n) = [58] ++ d_remove ->
   filter (pref [58]) (t_attrs (tok_of n)) = [dir_of n] ->
-  str_eqb (map rx_lower (t_name (tok_of n))) ([116; 58] ++ d_block) = false ->
+  str_eqb (block_key rx_lower (t_name (tok_of n))) ([116; 58] ++ d_block) = false ->
   remove_only rx_lower rx_mgr n (tok_of n) (dir_of n).
 Proof. intros mode n H1 H2 H3 H4 H5. repeat split; assumption. Qed.
 
@@ -57,7 +57,7 @@ Definition headb (tok : option token) (ch : list node) (e : option token) : bool
   | Some t =>
     match t_kind t with
     | KTag => forallb (fun a => negb (prefixb (m_attr_prefix mgr) (a_name a))) (t_attrs t) &&
-              negb (str_eqb (map to_lower (t_name t)) (m_tag_prefix mgr ++ d_block))
+              negb (str_eqb (block_key to_lower (t_name t)) (m_tag_prefix mgr ++ d_block))
     | KComment => negb (is_hidden_comment is_space (t_value t)) && leafb ch e
     | _ => leafb ch e
     end
